@@ -166,7 +166,7 @@ func ojNames(o *OJ, out map[string]bool) {
 
 func runC17(cfg runCfg) error {
 	sum := &summary{Property: "C17", Seed: cfg.seed, Features: map[string]int{}, CaseInputs: map[string]interface{}{},
-		Rule: "merged schemas of the three fixtures and of random federations (as for C07: interfaces, unions, enums with deprecated values, inputs with defaults, arguments with defaults, descriptions, namespaces, Mutation) x no permissions or a random permission tree over Query and Mutation (as for C18's view stream) x the standard introspection query through the real gateway; per case also: __type by literal name for three type names (in the view, outside it, unknown), an aliased query, and fields/enumValues with includeDeprecated false, absent and by variable, each compared with the projection of the standard answer; and the same standard query against a gateway with introspection disabled; non-trivial = permissions present or the schema is generated"}
+		Rule: "merged schemas of the three fixtures and of random federations (as for C07: interfaces, unions, enums with deprecated values, inputs with defaults, arguments with defaults, descriptions, namespaces, Mutation) x no permissions or a random permission tree over Query and Mutation (as for C18's view stream) x the standard introspection query through the real gateway; per case also: __type by literal name for three type names (in the view, outside it, unknown), an aliased query, and fields/enumValues with includeDeprecated false, absent and by variable, each compared with the projection of the standard answer; and, against a gateway with introspection disabled, the standard query and __schema/__type reached directly, aliased, through inline fragments (with and without type condition, nested) and through a named fragment; non-trivial = permissions present or the schema is generated"}
 	w := &caseWriter{dir: cfg.out, shard: 6, check: "check_introspect_case",
 		imports: "From V Require Import Base.Util Gql.Ast Model.Perm Model.View Model.Introspect Corr.IntrospectCheck."}
 	type src struct {
@@ -432,15 +432,35 @@ func runC17(cfg runCfg) error {
 		add("prop.c17.aliases_consistent", okAlias, detail)
 		add("prop.c17.include_deprecated_consistent", okDep, detail)
 		// ---- introspection disabled: no type or field name of the schema is revealed
-		r5, err := s.off.do(context.Background(), standardIntrospection, nil, "", nil)
-		if err != nil {
-			return err
+		// the standard query and the same two meta fields reached in every other way a selection can reach them
+		someType := "Query"
+		if len(inView) > 0 {
+			someType = inView[0]
 		}
+		shapes := []string{standardIntrospection,
+			"{ __schema { types { name fields { name } } } }",
+			"{ ... on Query { __schema { types { name fields { name } } } } }",
+			"{ ... { __type(name: \"" + someType + "\") { name fields { name type { name } } } } }",
+			"query Q { ...F } fragment F on Query { __schema { queryType { name fields { name } } types { name } } }",
+			"{ x: __type(name: \"" + someType + "\") { name fields { name } } }",
+			"{ ... on Query { ... on Query { y: __schema { types { name } } } } }"}
 		revealed := map[string]bool{}
-		ojNames(r5.Data, revealed)
+		for _, q5 := range shapes {
+			r5, err := s.off.do(context.Background(), q5, nil, "", nil)
+			if err != nil {
+				return err
+			}
+			ojNames(r5.Data, revealed)
+		}
 		var leaked []string
 		for n := range revealed {
-			if schema.Types[n] != nil {
+			isField := false
+			for _, t := range schema.Types {
+				if !strings.HasPrefix(t.Name, "__") && t.Fields.ForName(n) != nil {
+					isField = true
+				}
+			}
+			if schema.Types[n] != nil || isField {
 				leaked = append(leaked, n)
 			}
 		}
